@@ -176,7 +176,7 @@ def rule_R6b(text, fired):
                     if not re.match(r'^[A-Za-z_][A-Za-z0-9_]*$', recv):
                         raise Refuse('R6b: receiver of write_fmt is not an identifier: ' + recv)
                     del out[q:]
-                    out.append(f'wfmt_{fmt_tag(lit)}({recv}' + (', ' + rest_args if rest_args else '') + ')')
+                    out.append(f'wfmt_{fmt_tag(lit + "|" + "|".join(parts))}({recv}' + (', ' + rest_args if rest_args else '') + ')')
                     _count(fired, 'R6b')
                     i = close + 1
                     continue
@@ -275,6 +275,47 @@ def rule_R14(text, fired):
     return text
 
 
+# ---- R18: byte-string literals as array literals ------------------------------------------------
+def _bytes_of_literal(tok):
+    if tok.startswith('br'):
+        m = re.match(r'br(#*)"(.*)"\1$', tok, re.S)
+        return list(m.group(2).encode('utf-8'))
+    body = tok[2:-1]
+    out = []
+    i = 0
+    esc = {'n': 10, 't': 9, 'r': 13, '\\': 92, '"': 34, "'": 39, '0': 0}
+    while i < len(body):
+        c = body[i]
+        if c == '\\':
+            n = body[i + 1]
+            if n == 'x':
+                out.append(int(body[i + 2:i + 4], 16))
+                i += 4
+            elif n in esc:
+                out.append(esc[n])
+                i += 2
+            else:
+                raise Refuse('R18: unknown escape in byte string ' + tok)
+        else:
+            out.extend(c.encode('utf-8'))
+            i += 1
+    return out
+
+
+def rule_R18(text, fired):
+    """`b"..."` / `br"..."` -> `&[b0, b1, ..]` (Verus knows the contents of array literals, not of byte strings)"""
+    toks = rs.tokenize(text)
+    out = []
+    for t in toks:
+        if t.kind == 'str' and (t.text.startswith('b"') or t.text.startswith('br')):
+            bs = _bytes_of_literal(t.text)
+            out.append('&[' + ', '.join(f'{b}u8' for b in bs) + ']')
+            _count(fired, 'R18')
+        else:
+            out.append(t.text)
+    return ''.join(out)
+
+
 # ---- R16: string-literal conversion ------------------------------------------------------------
 def rule_R16(text, fired):
     toks = rs.tokenize(text)
@@ -303,6 +344,7 @@ def rule_R15(text, fired):
 
 
 RULES = {
+    'R18': rule_R18,
     'R10': rule_R10,
     'R6b': rule_R6b,
     'R16': rule_R16,
@@ -315,7 +357,7 @@ RULES = {
     'R9': rule_R9,
     'R13': rule_R13,
 }
-ORDER = ['R10', 'R2', 'R9', 'R6b', 'R6', 'R7', 'R13', 'R14', 'R15', 'R16', 'R5']
+ORDER = ['R10', 'R2', 'R9', 'R6b', 'R6', 'R7', 'R13', 'R14', 'R15', 'R16', 'R18', 'R5']
 
 
 def apply_rules(text, active, fired, extra_subs=()):
